@@ -537,6 +537,9 @@ func (ex *Exec) prepareCall(fr *frame, call *ssa.CallCommon) (fn Value, args []V
 			fn = ex.externMethod(e, recv.T, call.Method)
 		} else if f := ex.lookupMethod(recv.T, call.Method); f != nil {
 			fn = f
+		} else if recv.T == ex.opaqueNodeType() && (call.Method.Name() == "IsNull" || call.Method.Name() == "IsAbsent") {
+			// zz.Node values are arbitrary NON-null, present IPLD nodes
+			fn = &Intrinsic{Name: "opaqueNode." + call.Method.Name(), Fn: func(ex *Exec, fr *frame, args []Value) Value { return ex.ts.False() }}
 		} else {
 			panic(fmt.Sprintf("method set for dynamic type %v does not contain %s", recv.T, call.Method))
 		}
